@@ -170,7 +170,7 @@ func TestL6Loopback(t *testing.T) {
 				c := &hostCase{}
 				c.Layer = "e2e:" + cfg.name
 				c.Key = rapid.Uint64().Draw(rt, "key")
-				c.Streams = drawStreams(rt, 3, 1)
+				c.Streams = drawStreams(rt, 3, 1, 0)
 				for i := range c.Streams {
 					c.Lazy = append(c.Lazy, rapid.IntRange(0, 2).Draw(rt, fmt.Sprintf("s%d-lazy", i)) > 0)
 				}
